@@ -74,6 +74,9 @@ FRAGMENTS = [
     "3 Rob. 5",
     "1 Wash. 1 (1870)",
     "1 H. 2",
+    # placeholder pages in short forms (slip opinions)
+    "585 U. S., at ___ (slip op., at 9)",
+    "Id., at ___",
 ]
 
 HOSTILE = [
@@ -117,6 +120,14 @@ HOSTILE = [
     '"',
     "\\",
     "\ud800",
+    # placeholder pages in every position a page can stand
+    "1 U.S., at ___",
+    "2 F.3d, at _",
+    "1 U.S. at ___",
+    "Bar, supra, at ___",
+    "1 U.S. ___, ___ (1999)",
+    "___ U.S. ___",
+    "1 Minn. L. Rev. ___, at ___",
     # digit runs longer than int() converts (sys.get_int_max_str_digits() = 4300 since Python 3.11)
     "1 U.S. " + "1" * 5000,
     "7" * 5000 + " U.S. 1",
@@ -168,3 +179,16 @@ def mutate(text, rnd, n=1):
         else:
             chars.insert(i, rnd.choice(" ,.;()[]§\n\t “"))
     return "".join(chars)
+
+
+def to_markup(doc, rnd):
+    """mark up a plain document: <p> blocks, <i>/<em> around capitalised words, entities"""
+    words = doc.split(" ")
+    out = []
+    for w in words:
+        if w[:1].isupper() and rnd.random() < 0.35 and "<" not in w:
+            tag = rnd.choice(["i", "em"])
+            out.append(f"<{tag}>{w}</{tag}>")
+        else:
+            out.append(w.replace("&", "&amp;").replace("<", "&lt;"))
+    return "<p>" + " ".join(out) + "</p>"
